@@ -74,6 +74,9 @@ fn workloads(prop: &str, thorough: bool) -> Vec<Work> {
     };
     match prop {
         "C01" => {
+            w.push(bridge(Prod, Random, 8, 600 * k, false, false));
+            w.push(bridge(Prod, Rename, 6, 500 * k, false, false));
+            w.push(bridge(Prod, KindFlip, 8, 400 * k, false, false));
             w.push(chains(Prod, KindFlip, 8, 5000 * k));
             w.push(chains(Plain, KindFlip, 8, 4000 * k));
             w.push(chains(Prod, MultiPart, 4, 5000 * k));
@@ -177,6 +180,8 @@ fn workloads(prop: &str, thorough: bool) -> Vec<Work> {
             exh(&mut w, exhaustive::Phase::Faults);
         }
         "C08" => {
+            w.push(bridge(Prod, FailHist, 7, 600 * k, false, false));
+            w.push(bridge(Stamped, AbortOffered, 7, 500 * k, false, false));
             // a validated Ephemeral that changes its output is rejected = a failed attempt: its records must not vouch afterwards
             for (conv, fam, n) in [(Plain, ValidatedEph, 5000u64), (Stamped, ValidatedEph, 3000), (Plain, EphChain, 3000)] {
                 let mut c = ChainCfg::new(conv, fam, 4);
@@ -195,6 +200,8 @@ fn workloads(prop: &str, thorough: bool) -> Vec<Work> {
             exh(&mut w, exhaustive::Phase::Faults);
         }
         "C09" => {
+            w.push(bridge(Prod, AbortOffered, 7, 600 * k, false, false));
+            w.push(bridge(Stamped, LateFail, 4, 500 * k, false, false));
             w.push(chains(Plain, Random, 8, 10000 * k));
             w.push(chains(Plain, AbortOffered, 7, 10000 * k));
             w.push(chains(Stamped, AbortOffered, 7, 6000 * k));
@@ -229,6 +236,8 @@ fn workloads(prop: &str, thorough: bool) -> Vec<Work> {
             exh(&mut w, exhaustive::Phase::Edits);
         }
         "C12" => {
+            w.push(bridge(Prod, Random, 8, 600 * k, false, false));
+            w.push(bridge(Stamped, ValidatedEph, 4, 500 * k, false, false));
             w.push(chains(Prod, KindFlip, 8, 4000 * k));
             w.push(chains(Prod, MultiPart, 4, 4000 * k));
             w.push(chains(Plain, Random, 8, 12000 * k));
@@ -306,6 +315,8 @@ fn workloads(prop: &str, thorough: bool) -> Vec<Work> {
             exh(&mut w, exhaustive::Phase::Faults);
         }
         "C18" => {
+            w.push(bridge(Prod, Rename, 6, 800 * k, false, false));
+            w.push(bridge(Prod, Random, 8, 500 * k, false, false));
             w.push(chains(Prod, KindFlip, 8, 5000 * k));
             w.push(chains(Prod, Rename, 6, 16000 * k));
             w.push(chains(Prod, Random, 8, 12000 * k));
